@@ -1,6 +1,8 @@
 """C09 -- length code: monotone bucketing, consistent with range()."""
 import core
 import common
+import pyref
+import suites
 
 RULE = ("LEN-POINT: every table boundary -1/0/+1 of the regenerated table, 0..80, 2^k-1/2^k/2^k+1, "
         "MAX-2..MAX+2, 2^32-1 and seeded random lengths through new()/try_from(); all 256 codes through "
@@ -63,6 +65,15 @@ def run(ctx):
             x = int(p[1])
             if (i.startswith("some")) != (x <= MAX):
                 return "encoding must succeed exactly for lengths <= %d; new(%d) = %s" % (MAX, x, i)
+            e = pyref.spec_code(x)
+            if e is not None and i != "some %d" % e:
+                return "new(%d) = %s, the reference length code (least i with len <= top[i] in the published table) is %d" % (x, i, e)
+        if p[0] == "hash" and i.startswith("ok "):
+            # a generated hash carries the code of the number of bytes fed
+            v, n = p[1], (len(p[3]) - 1) // 2
+            code = pyref.unhex(i.split(" ")[1])[suites.VARIANTS[v][0]]
+            if code != pyref.spec_code(n):
+                return "a hash generated from %d bytes carries length code %d, the code of %d is %s" % (n, code, n, pyref.spec_code(n))
         if p[0] == "limits" and i.split(" ")[-1] != str(MAX):
             return "GeneratorType::MAX is %s, the published maximum is %d" % (i.split(" ")[-1], MAX)
         if p[0] == "validity":
@@ -73,6 +84,17 @@ def run(ctx):
 
     for x in (MAX - 1, MAX, MAX + 1, MAX + 2, MAX + 45, MAX + 46, MAX + 1000):
         cases.append("len_new %d" % x)
+    # every boundary of the PUBLISHED table (the source's own table was used above)
+    for tv in pyref.spec_topval():
+        for d in (-1, 0, 1):
+            if 0 <= tv + d < 2 ** 32:
+                cases.append("len_new %d" % (tv + d))
+    # generated hashes: the length byte is the code of the number of bytes fed (most permissive options)
+    grng = ctx.rng.fork("genlen")
+    for v in ("S", "N", "NL", "L", "LL"):
+        for n in list(range(0, 12)) + [17, 18, 38, 39, 40, 57, 58, 86, 87, 129, 130, 194, 195, 291, 292, 437, 438, 656, 657, 854, 855, 1110, 1111, 2436, 2437]:
+            cases.append("hash %s 30 %s" % (v, suites.hx(suites.gen_data(grng, n, 0))))
+    cases = list(dict.fromkeys(cases))
     ctx.correspond("LEN-POINT", cases, hb, db, nontrivial=nontrivial, coq_sample=24, predicate=point_pred)
 
     # exhaustive: all 2^32 lengths on the implementation, RLE compared with the model
